@@ -2,7 +2,8 @@
     (the part that is logic; data-race freedom and real interleavings are runtime).
     Statements only; proofs are in Proofs/BenchTab.v. *)
 From Perf Require Import Base.Bytes Base.B64 Model.BenchTab Proofs.BenchTab Proofs.BenchTabWarn Model.Sched Proofs.Sched.
-From Coq Require Import Sorting.Permutation.
+From Perf Require Import Base.B64Order Model.StatsF Model.SampleSort Proofs.BenchMath Proofs.SampleSort.
+From Coq Require Import Sorting.Permutation Sorting.Sorted.
 
 (** every state Builder.Add can reach has distinct table keys and, per table,
     distinct (row, col) cell keys: the hypotheses below are met by construction *)
@@ -71,6 +72,63 @@ Theorem C15_cell_warning_local : forall (vals : N -> list bytes) nf ms ms' t r c
   nonsingular vals nf (lookup_res (build ms) t r c) = nonsingular vals nf (lookup_res (build ms') t r c).
 Proof. exact cell_vary_local. Qed.
 Print Assumptions C15_cell_warning_local.
+
+(** ** samples with NaN, +Inf, -Inf (benchmath.NewSample = sort.Float64s; Model/SampleSort.v) *)
+
+(** NaN sorts first: the sample is the NaNs of the cell followed by its numbers
+    (-Inf and +Inf included) in ascending order *)
+Theorem C15_sample_nan_first : forall vals,
+  sort_go vals = repeat S754_nan (length (filter nanb vals)) ++ sort_f (filter numb vals)
+  /\ StronglySorted leP (sort_f (filter numb vals))
+  /\ Permutation vals (sort_go vals).
+Proof. intros vals. split; [apply sort_go_nan_first|split; [apply sort_go_sorted|apply sort_go_perm]]. Qed.
+Print Assumptions C15_sample_nan_first.
+
+(** the sample of a cell does not depend on the order in which its measurements
+    arrive - NaN first, in the middle or last (no -0 among them: -0 == +0 under <) *)
+Theorem C15_sample_perm_invariant : forall vals vals',
+  Permutation vals vals' -> Forall (fun x => x <> S754_zero true) vals -> sort_go vals = sort_go vals'.
+Proof. exact sort_go_canonical. Qed.
+Print Assumptions C15_sample_perm_invariant.
+
+(** with line_perm_cell_invariant: permuting the lines of the input leaves the sorted
+    sample of every cell unchanged, NaN and Inf measurements included *)
+Theorem C15_line_perm_sample_invariant : forall ms ms' t r c,
+  Permutation ms ms' ->
+  Forall (fun x => x <> S754_zero true) (lookup_vals (build ms) t r c) ->
+  sort_go (lookup_vals (build ms) t r c) = sort_go (lookup_vals (build ms') t r c).
+Proof.
+  intros ms ms' t r c Hp Hz. apply sort_go_canonical; [|exact Hz]. now apply line_perm_cell_invariant.
+Qed.
+Print Assumptions C15_line_perm_sample_invariant.
+
+(** on NaN-free measurements this is the sort of Model/StatsF.v (C13's NewSample) *)
+Theorem C15_sample_sort_extends_sort_f : forall vals, Forall nonnan vals -> sort_go vals = sort_f vals.
+Proof. exact sort_go_nonnan. Qed.
+Print Assumptions C15_sample_sort_extends_sort_f.
+
+(** the predicate Corr/RunC15.v judges a cell with (NaN run, then ascending NaN-free
+    values; same multiset as the measurements) holds of the model and determines the sample *)
+Theorem C15_judged_sample_is_sort : forall vals s,
+  Forall (fun x => x <> S754_zero true) vals ->
+  (is_sample_of vals s = true <-> s = sort_go vals).
+Proof.
+  intros vals s Hz. split; [now apply is_sample_unique|intros ->; apply sort_go_is_sample].
+Qed.
+Print Assumptions C15_judged_sample_is_sort.
+
+Example C15_nan_first_example :
+  let nan := S754_nan in let pinf := S754_infinity false in let ninf := S754_infinity true in
+  let one := b64_one in let two := b64_of_Z 2 in
+  sort_go [two; nan; pinf; one; ninf; nan] = [nan; nan; ninf; one; two; pinf] /\
+  sort_go [nan; nan; ninf; pinf; two; one] = [nan; nan; ninf; one; two; pinf] /\
+  is_sample_of [two; nan; pinf; one; ninf; nan] [nan; nan; ninf; one; two; pinf] = true /\
+  is_sample_of [two; nan; one] [one; nan; two] = false /\
+  Forall (fun x => x <> S754_zero true) [two; nan; pinf; one; ninf; nan].
+Proof.
+  vm_compute. repeat split; try reflexivity.
+  repeat constructor; discriminate.
+Qed.
 
 (** a row whose baseline cell AND another cell merge sub-benchmarks: both carry the warning *)
 Example C15_both_cells_warn :
